@@ -294,4 +294,365 @@ mutual
       simp [parseTerms, h1, h2, h3, relabelList]
 end
 
+-- ------------------------------------------------------------------ programs
+/-- parsing the printed program gives the program with its names re-interned from an empty interner -/
+theorem parseProgram_print (p : Program Name) (hok : programOk p = true) :
+    parseProgram (printProgramTokens p) = some ⟨p.version, (relabel [] p.term).1⟩ := by
+  simp [programOk] at hok
+  obtain ⟨⟨⟨h1, h2⟩, h3⟩, h4⟩ := hok
+  have hv := parseVersion_versionChars p.version h1 h2 h3
+  have hs := skipWs_of_noLeadWs (printTerm_noLeadWs p.term) [.rpar]
+  have ht := parseTerm_print p.term ((printProgramTokens p).length + 1) [] [.rpar] h4
+    (by simp [printProgramTokens]; omega)
+  simp only [printProgramTokens, List.cons_append, List.nil_append] at ht ⊢
+  simp [parseProgram, parseProgramFuel, afterKeyword, program_kw, hv, hs]
+  simp at ht
+  simp [ht]
+
+-- ------------------------------------------------------------------ interner facts
+section idx
+variable {α : Type} [DecidableEq α]
+
+theorem idxOf_append_some (x : α) (l e : List α) (i : Nat) (h : idxOf x l = some i) :
+    idxOf x (l ++ e) = some i := by
+  induction l generalizing i with
+  | nil => simp [idxOf] at h
+  | cons b bs ih =>
+    simp only [List.cons_append, idxOf] at h ⊢
+    split
+    · simp_all
+    · rename_i hne
+      simp [hne] at h
+      obtain ⟨j, hj, rfl⟩ := h
+      simp [ih j hj]
+
+theorem idxOf_none_iff (x : α) (l : List α) : idxOf x l = none ↔ x ∉ l := by
+  induction l with
+  | nil => simp [idxOf]
+  | cons b bs ih =>
+    simp only [idxOf, List.mem_cons, not_or]
+    split
+    · simp_all
+    · rename_i hne; simp [ih, hne]
+
+theorem idxOf_append_self (x : α) (l : List α) (h : idxOf x l = none) : idxOf x (l ++ [x]) = some l.length := by
+  induction l with
+  | nil => simp [idxOf]
+  | cons b bs ih =>
+    simp only [idxOf] at h
+    split at h
+    · simp at h
+    · rename_i hne
+      simp at h
+      simp [idxOf, hne, ih h]
+
+theorem idxOf_inj (x y : α) (l : List α) (i : Nat) (hx : idxOf x l = some i) (hy : idxOf y l = some i) : x = y := by
+  induction l generalizing i with
+  | nil => simp [idxOf] at hx
+  | cons b bs ih =>
+    simp only [idxOf] at hx hy
+    split at hx <;> split at hy
+    · simp_all
+    · simp at hx hy; obtain ⟨j, _, hj⟩ := hy; omega
+    · simp at hx hy; obtain ⟨j, _, hj⟩ := hx; omega
+    · simp at hx hy
+      obtain ⟨j, hj, rfl⟩ := hx
+      obtain ⟨k, hk, hk'⟩ := hy
+      have : k = j := by omega
+      rw [this] at hk
+      exact ih j hj hk
+
+theorem idxOf_map_inj {β : Type} [DecidableEq β] (f : α → β) (x : α) (l : List α)
+    (h : ∀ y ∈ l, f y = f x → y = x) : idxOf (f x) (l.map f) = idxOf x l := by
+  induction l with
+  | nil => rfl
+  | cons b bs ih =>
+    have ih' := ih (fun y hy => h y (by simp [hy]))
+    simp only [List.map_cons, idxOf]
+    by_cases hb : x = b
+    · subst hb; simp
+    · have : f x ≠ f b := fun e => hb (h b (by simp) e.symm).symm
+      simp [hb, this, ih']
+end idx
+
+/-- `S` extends the interner state `st` (the interner only ever appends) -/
+def Ext (st S : Interner) : Prop := ∃ e, S = st ++ e
+
+theorem Ext.refl (st : Interner) : Ext st st := ⟨[], by simp⟩
+theorem Ext.trans {a b c : Interner} (h1 : Ext a b) (h2 : Ext b c) : Ext a c := by
+  obtain ⟨e1, rfl⟩ := h1; obtain ⟨e2, rfl⟩ := h2; exact ⟨e1 ++ e2, by simp⟩
+
+theorem intern_ext (x : List Char) (st : Interner) : Ext st (intern x st).2 := by
+  unfold intern; split
+  · exact Ext.refl st
+  · exact ⟨[x], rfl⟩
+
+theorem intern_idx (x : List Char) (st : Interner) : idxOf x (intern x st).2 = some (intern x st).1 := by
+  unfold intern; split
+  · rename_i i h; simpa using h
+  · rename_i h; simpa using idxOf_append_self x st h
+
+/-- the number the final interner gives to a text -/
+def codeOf (S : Interner) (x : List Char) : Int := Int.ofNat ((idxOf x S).getD 0)
+
+theorem codeOf_of_ext {st S : Interner} (h : Ext st S) (x : List Char) (i : Nat) (hi : idxOf x st = some i) :
+    codeOf S x = Int.ofNat i := by
+  obtain ⟨e, rfl⟩ := h
+  simp [codeOf, idxOf_append_some x st e i hi]
+
+theorem mem_of_ext_idx {st S : Interner} (h : Ext st S) (x : List Char) (i : Nat) (hi : idxOf x st = some i) : x ∈ S := by
+  obtain ⟨e, rfl⟩ := h
+  have : x ∈ st := by
+    by_cases hn : x ∈ st
+    · exact hn
+    · rw [(idxOf_none_iff x st).2 hn] at hi; simp at hi
+  simp [this]
+
+theorem codeOf_inj (S : Interner) (x y : List Char) (hx : x ∈ S) (hy : y ∈ S) (h : codeOf S y = codeOf S x) : y = x := by
+  cases hix : idxOf x S with
+  | none => exact absurd hx ((idxOf_none_iff x S).1 hix)
+  | some i =>
+    cases hiy : idxOf y S with
+    | none => exact absurd hy ((idxOf_none_iff y S).1 hiy)
+    | some j =>
+      simp [codeOf, hix, hiy] at h
+      have hji : j = i := by omega
+      rw [hji] at hiy
+      exact idxOf_inj y x S i hiy hix
+
+mutual
+  theorem relabel_ext : (t : Term Name) → ∀ st, Ext st (relabel st t).2
+    | .var n => fun st => by simpa [relabel] using intern_ext _ st
+    | .lam n b => fun st => by
+      simp only [relabel]; exact (intern_ext _ st).trans (relabel_ext b _)
+    | .app f a => fun st => by
+      simp only [relabel]; exact (relabel_ext f st).trans (relabel_ext a _)
+    | .delay t => fun st => by simpa [relabel] using relabel_ext t st
+    | .force t => fun st => by simpa [relabel] using relabel_ext t st
+    | .error => fun st => by simpa [relabel] using Ext.refl st
+    | .builtin _ => fun st => by simpa [relabel] using Ext.refl st
+    | .const _ => fun st => by simpa [relabel] using Ext.refl st
+    | .constr _ fs => fun st => by simpa [relabel] using relabelList_ext fs st
+    | .case s bs => fun st => by
+      simp only [relabel]; exact (relabel_ext s st).trans (relabelList_ext bs _)
+  theorem relabelList_ext : (ts : List (Term Name)) → ∀ st, Ext st (relabelList st ts).2
+    | [] => fun st => by simpa [relabelList] using Ext.refl st
+    | t :: ts => fun st => by
+      simp only [relabelList]; exact (relabel_ext t st).trans (relabelList_ext ts _)
+end
+
+/-- the environment of uniques that corresponds to an environment of texts under the final interner -/
+def envCodes (S : Interner) (envT : List (List Char)) : List Int := envT.map (codeOf S)
+
+theorem name_step (S st : Interner) (n : Name) (h : Ext (intern (nameChars n) st).2 S) :
+    (mkName (nameChars n) (intern (nameChars n) st).1).unique = codeOf S (nameChars n) ∧ nameChars n ∈ S := by
+  have hi := intern_idx (nameChars n) st
+  exact ⟨by simp [mkName, codeOf_of_ext h _ _ hi], mem_of_ext_idx h _ _ hi⟩
+
+mutual
+  /-- resolving the re-interned term through its (new) uniques = resolving the original through texts -/
+  theorem resolve_relabel : (t : Term Name) → ∀ (st S : Interner) (envT : List (List Char)),
+      Ext (relabel st t).2 S → (∀ x ∈ envT, x ∈ S) →
+      resolveBy (·.unique) (envCodes S envT) (relabel st t).1 = resolveBy nameChars envT t
+    | .var n => by
+      intro st S envT hext henv
+      simp only [relabel] at hext ⊢
+      obtain ⟨hu, hm⟩ := name_step S st n hext
+      simp only [resolveBy, hu, envCodes]
+      rw [idxOf_map_inj (codeOf S) (nameChars n) envT (fun y hy e => codeOf_inj S _ _ hm (henv y hy) e)]
+      simp [mkName_nameChars]
+    | .lam n b => by
+      intro st S envT hext henv
+      simp only [relabel] at hext ⊢
+      obtain ⟨hu, hm⟩ := name_step S st n ((relabel_ext b _).trans hext)
+      have ih := resolve_relabel b (intern (nameChars n) st).2 S (nameChars n :: envT) hext
+        (by intro x hx; simp at hx; rcases hx with rfl | hx; exact hm; exact henv x hx)
+      simp only [resolveBy, hu]
+      simp only [envCodes, List.map_cons] at ih
+      simp [envCodes, ih]
+    | .app f a => by
+      intro st S envT hext henv
+      simp only [relabel] at hext ⊢
+      simp only [resolveBy]
+      rw [resolve_relabel f st S envT ((relabel_ext a _).trans hext) henv,
+        resolve_relabel a _ S envT hext henv]
+    | .delay t => by
+      intro st S envT hext henv
+      simp only [relabel] at hext ⊢
+      simp only [resolveBy]
+      rw [resolve_relabel t st S envT hext henv]
+    | .force t => by
+      intro st S envT hext henv
+      simp only [relabel] at hext ⊢
+      simp only [resolveBy]
+      rw [resolve_relabel t st S envT hext henv]
+    | .error => by intros; simp [relabel, resolveBy]
+    | .builtin _ => by intros; simp [relabel, resolveBy]
+    | .const _ => by intros; simp [relabel, resolveBy]
+    | .constr tag fs => by
+      intro st S envT hext henv
+      simp only [relabel] at hext ⊢
+      simp only [resolveBy]
+      rw [resolveList_relabel fs st S envT hext henv]
+    | .case s bs => by
+      intro st S envT hext henv
+      simp only [relabel] at hext ⊢
+      simp only [resolveBy]
+      rw [resolve_relabel s st S envT ((relabelList_ext bs _).trans hext) henv,
+        resolveList_relabel bs _ S envT hext henv]
+  theorem resolveList_relabel : (ts : List (Term Name)) → ∀ (st S : Interner) (envT : List (List Char)),
+      Ext (relabelList st ts).2 S → (∀ x ∈ envT, x ∈ S) →
+      resolveListBy (·.unique) (envCodes S envT) (relabelList st ts).1 = resolveListBy nameChars envT ts
+    | [] => by intros; simp [relabelList, resolveListBy]
+    | t :: ts => by
+      intro st S envT hext henv
+      simp only [relabelList] at hext ⊢
+      simp only [resolveListBy]
+      rw [resolve_relabel t st S envT ((relabelList_ext ts _).trans hext) henv,
+        resolveList_relabel ts _ S envT hext henv]
+end
+
+mutual
+  /-- under `NamesConsistent`, resolving by text and resolving by unique agree -/
+  theorem resolve_scopeOk : (t : Term Name) → ∀ (env : List Name), scopeOk env t = true →
+      resolveBy nameChars (env.map nameChars) t = resolveBy (·.unique) (env.map (·.unique)) t
+    | .var n => by
+      intro env h
+      simp [scopeOk] at h
+      simp [resolveBy, h]
+    | .lam n b => by
+      intro env h
+      simp [scopeOk] at h
+      have := resolve_scopeOk b (n :: env) h
+      simp only [List.map_cons] at this
+      simp [resolveBy, this]
+    | .app f a => by
+      intro env h
+      simp [scopeOk] at h
+      simp [resolveBy, resolve_scopeOk f env h.1, resolve_scopeOk a env h.2]
+    | .delay t => by
+      intro env h
+      simp [scopeOk] at h
+      simp [resolveBy, resolve_scopeOk t env h]
+    | .force t => by
+      intro env h
+      simp [scopeOk] at h
+      simp [resolveBy, resolve_scopeOk t env h]
+    | .error => by intros; simp [resolveBy]
+    | .builtin _ => by intros; simp [resolveBy]
+    | .const _ => by intros; simp [resolveBy]
+    | .constr tag fs => by
+      intro env h
+      simp [scopeOk] at h
+      simp [resolveBy, resolveList_scopeOk fs env h]
+    | .case s bs => by
+      intro env h
+      simp [scopeOk] at h
+      simp [resolveBy, resolve_scopeOk s env h.1, resolveList_scopeOk bs env h.2]
+  theorem resolveList_scopeOk : (ts : List (Term Name)) → ∀ (env : List Name), scopeOkList env ts = true →
+      resolveListBy nameChars (env.map nameChars) ts = resolveListBy (·.unique) (env.map (·.unique)) ts
+    | [] => by intros; simp [resolveListBy]
+    | t :: ts => by
+      intro env h
+      simp [scopeOkList] at h
+      simp [resolveListBy, resolve_scopeOk t env h.1, resolveList_scopeOk ts env h.2]
+end
+
+/-- re-interning the names of a term with consistent names does not change its nameless view -/
+theorem nameless_relabel (t : Term Name) (h : scopeOk [] t = true) : nameless (relabel [] t).1 = nameless t := by
+  have h1 := resolve_relabel t [] (relabel [] t).2 [] (Ext.refl _) (by simp)
+  have h2 := resolve_scopeOk t [] h
+  simp only [envCodes, List.map_nil] at h1 h2
+  simp only [nameless]
+  rw [h1, h2]
+
+-- ------------------------------------------------------------------ printable; printing ignores uniques
+mutual
+  theorem constPrintable_of_ok : (c : Const) → ∀ t, constOk t c = true → constPrintable c = true
+    | .list t' xs => by
+      intro t h
+      cases t <;> simp [constOk] at h
+      simpa [constPrintable] using constsPrintable_of_ok xs _ h.2
+    | .pair a b x y => by
+      intro t h
+      cases t <;> simp [constOk] at h
+      simp [constPrintable, constPrintable_of_ok x _ h.1.2, constPrintable_of_ok y _ h.2]
+    | .ml _ => by intro t h; cases t <;> simp [constOk] at h
+    | .integer _ => by intros; rfl
+    | .bytestring _ => by intros; rfl
+    | .string _ => by intros; rfl
+    | .unit => by intros; rfl
+    | .bool _ => by intros; rfl
+    | .data _ => by intros; rfl
+    | .g1 _ => by intros; rfl
+    | .g2 _ => by intros; rfl
+  theorem constsPrintable_of_ok : (cs : List Const) → ∀ t, constsOk t cs = true → constsPrintable cs = true
+    | [] => by intros; rfl
+    | c :: cs => by
+      intro t h
+      simp [constsOk] at h
+      simp [constsPrintable, constPrintable_of_ok c t h.1, constsPrintable_of_ok cs t h.2]
+end
+
+mutual
+  theorem termPrintable_of_ok : (t : Term Name) → termOk t = true → termPrintable t = true
+    | .var _ => by intros; rfl
+    | .lam _ b => by intro h; simp [termOk] at h; simpa [termPrintable] using termPrintable_of_ok b h.2
+    | .app f a => by
+      intro h; simp [termOk] at h
+      simp [termPrintable, termPrintable_of_ok f h.1, termPrintable_of_ok a h.2]
+    | .delay t => by intro h; simp [termOk] at h; simpa [termPrintable] using termPrintable_of_ok t h
+    | .force t => by intro h; simp [termOk] at h; simpa [termPrintable] using termPrintable_of_ok t h
+    | .error => by intros; rfl
+    | .builtin _ => by intros; rfl
+    | .const c => by intro h; simp [termOk] at h; simpa [termPrintable] using constPrintable_of_ok c _ h
+    | .constr _ fs => by intro h; simp [termOk] at h; simpa [termPrintable] using termsPrintable_of_ok fs h.2
+    | .case s bs => by
+      intro h; simp [termOk] at h
+      simp [termPrintable, termPrintable_of_ok s h.1, termsPrintable_of_ok bs h.2]
+  theorem termsPrintable_of_ok : (ts : List (Term Name)) → termsOk ts = true → termsPrintable ts = true
+    | [] => by intros; rfl
+    | t :: ts => by
+      intro h; simp [termsOk] at h
+      simp [termsPrintable, termPrintable_of_ok t h.1, termsPrintable_of_ok ts h.2]
+end
+
+theorem text_mkName (n : Name) (u : Nat) : BinderText.text (mkName (nameChars n) u) = BinderText.text n := by
+  simp [BinderText.text, mkName, nameChars]
+
+mutual
+  /-- the printer only looks at texts, and re-interning keeps texts -/
+  theorem printTerm_relabel : (t : Term Name) → ∀ st, printTerm (relabel st t).1 = printTerm t
+    | .var n => by intro st; simp [relabel, printTerm, text_mkName]
+    | .lam n b => by intro st; simp [relabel, printTerm, text_mkName, printTerm_relabel b]
+    | .app f a => by intro st; simp [relabel, printTerm, printTerm_relabel f, printTerm_relabel a]
+    | .delay t => by intro st; simp [relabel, printTerm, printTerm_relabel t]
+    | .force t => by intro st; simp [relabel, printTerm, printTerm_relabel t]
+    | .error => by intro st; simp [relabel]
+    | .builtin _ => by intro st; simp [relabel]
+    | .const _ => by intro st; simp [relabel]
+    | .constr _ fs => by intro st; simp [relabel, printTerm, printTerms_relabel fs]
+    | .case s bs => by intro st; simp [relabel, printTerm, printTerm_relabel s, printTerms_relabel bs]
+  theorem printTerms_relabel : (ts : List (Term Name)) → ∀ st, printTerms (relabelList st ts).1 = printTerms ts
+    | [] => by intro st; simp [relabelList, printTerms]
+    | t :: ts => by intro st; simp [relabelList, printTerms, printTerm_relabel t, printTerms_relabel ts]
+end
+
+mutual
+  theorem termPrintable_relabel : (t : Term Name) → ∀ st, termPrintable (relabel st t).1 = termPrintable t
+    | .var n => by intro st; simp [relabel, termPrintable]
+    | .lam n b => by intro st; simp [relabel, termPrintable, termPrintable_relabel b]
+    | .app f a => by intro st; simp [relabel, termPrintable, termPrintable_relabel f, termPrintable_relabel a]
+    | .delay t => by intro st; simp [relabel, termPrintable, termPrintable_relabel t]
+    | .force t => by intro st; simp [relabel, termPrintable, termPrintable_relabel t]
+    | .error => by intro st; simp [relabel]
+    | .builtin _ => by intro st; simp [relabel]
+    | .const _ => by intro st; simp [relabel]
+    | .constr _ fs => by intro st; simp [relabel, termPrintable, termsPrintable_relabel fs]
+    | .case s bs => by intro st; simp [relabel, termPrintable, termPrintable_relabel s, termsPrintable_relabel bs]
+  theorem termsPrintable_relabel : (ts : List (Term Name)) → ∀ st, termsPrintable (relabelList st ts).1 = termsPrintable ts
+    | [] => by intro st; simp [relabelList, termsPrintable]
+    | t :: ts => by intro st; simp [relabelList, termsPrintable, termPrintable_relabel t, termsPrintable_relabel ts]
+end
+
 end AikenVerif.Text
